@@ -17,6 +17,7 @@ import (
 	"os"
 	"os/exec"
 	"regexp"
+	"runtime"
 	"strconv"
 	"strings"
 	"sync"
@@ -46,6 +47,11 @@ type runner struct {
 	onRecord func(line []byte)
 	onDead   func(d deadOp)
 	env      []string
+	// confirmArgs, when set, makes the parent re-run an operation that ran out of its time budget once more in a fresh
+	// child with these extra arguments (a larger budget); if it returns then, its record replaces the timeout.
+	confirmArgs []string
+	unconfirmed int
+	mu          sync.Mutex
 }
 
 var pdfcpuFrame = regexp.MustCompile(`^(github\.com/pdfcpu/pdfcpu/[^\s(]+)`)
@@ -115,9 +121,13 @@ func (t *tailBuf) String() string {
 
 func (r *runner) worker(w int) {
 	idx, fromop := w, 0
+	toCase, toCount := -1, 0 // timeouts seen so far in the case being resumed
 	for idx < r.n {
 		args := append([]string{r.sub}, r.args...)
 		args = append(args, "--from", strconv.Itoa(idx), "--fromop", strconv.Itoa(fromop), "--stride", strconv.Itoa(r.workers))
+		if toCase == idx && toCount > 0 {
+			args = append(args, "--timeouts", fmt.Sprintf("%d:%d", idx, toCount))
+		}
 		cmd := exec.Command(os.Args[0], args...)
 		cmd.Env = append(os.Environ(), r.env...)
 		stderr := &tailBuf{max: 65536}
@@ -200,7 +210,7 @@ func (r *runner) worker(w int) {
 		dump := stderr.String()
 		d := deadOp{Idx: curIdx, OpIndex: curOp, Op: curName, Ms: time.Since(curStart).Milliseconds()}
 		switch {
-		case timedOut:
+		case timedOut || strings.Contains(dump, "VERIF-CPU-BUDGET-EXCEEDED"):
 			d.Kind = "timeout"
 		case strings.Contains(dump, "goroutine stack exceeds") || strings.Contains(dump, "stack overflow"):
 			d.Kind = "stack-overflow"
@@ -216,9 +226,45 @@ func (r *runner) worker(w int) {
 			d.Where = d.Stack[0]
 		}
 		d.Detail = firstLines(dump, 3)
+		if d.Kind == "timeout" && r.confirmArgs != nil {
+			if line := r.confirm(curIdx, curOp); line != nil {
+				r.mu.Lock()
+				r.unconfirmed++
+				r.mu.Unlock()
+				r.onRecord(line)
+				idx, fromop = curIdx, curOp+1
+				continue
+			}
+		}
 		r.onDead(d)
+		if d.Kind == "timeout" {
+			if toCase != curIdx {
+				toCase, toCount = curIdx, 0
+			}
+			toCount++
+		}
 		idx, fromop = curIdx, curOp+1
 	}
+}
+
+// confirm re-runs exactly one operation of one case; it returns the record line if the operation returned this time.
+func (r *runner) confirm(idx, op int) []byte {
+	args := append([]string{r.sub}, r.confirmArgs...) // first occurrence of a flag wins
+	args = append(args, r.args...)
+	args = append(args, "--from", strconv.Itoa(idx), "--fromop", strconv.Itoa(op), "--stride", "1000000000", "--single-op", "1")
+	cmd := exec.Command(os.Args[0], args...)
+	cmd.Env = append(os.Environ(), r.env...)
+	out, err := cmd.Output()
+	if err != nil {
+		return nil
+	}
+	var rec []byte
+	for _, ln := range bytes.Split(out, []byte{'\n'}) {
+		if bytes.HasPrefix(ln, []byte("R ")) {
+			rec = append([]byte(nil), ln[2:]...)
+		}
+	}
+	return rec
 }
 
 func firstLines(s string, n int) string {
@@ -259,6 +305,7 @@ type childIO struct {
 	w      *bufio.Writer
 	fromop int
 	first  bool
+	single bool // run only operation fromop of the first case
 }
 
 func (c *childIO) begin(idx, opIndex int, op string) {
@@ -274,12 +321,17 @@ func (c *childIO) record(b []byte) {
 }
 
 // skip tells whether operation opIndex of the first case of this child run was already handled by a previous run.
-func (c *childIO) skip(opIndex int) bool { return c.first && opIndex < c.fromop }
+func (c *childIO) skip(opIndex int) bool {
+	if c.single {
+		return opIndex != c.fromop
+	}
+	return c.first && opIndex < c.fromop
+}
 
 func childLoop(n int, fn func(idx int, io *childIO)) {
 	from := h.ArgInt("--from", 0)
 	stride := h.ArgInt("--stride", 1)
-	io := &childIO{w: bufio.NewWriterSize(os.Stdout, 1<<16), fromop: h.ArgInt("--fromop", 0), first: true}
+	io := &childIO{w: bufio.NewWriterSize(os.Stdout, 1<<16), fromop: h.ArgInt("--fromop", 0), first: true, single: h.Arg("--single-op") == "1"}
 	for idx := from; idx < n; idx += stride {
 		fn(idx, io)
 		io.first = false
@@ -315,4 +367,49 @@ func (l *lineW) line(b []byte) {
 func (l *lineW) close() {
 	l.w.Flush()
 	l.f.Close()
+}
+
+// watchdog enforces a CPU time budget (process CPU time, so that machine load does not matter) on one operation:
+// when the budget is exceeded it dumps all goroutine stacks and exits; the parent records a timeout.
+type watchdog struct {
+	mu       sync.Mutex
+	deadline time.Duration // process CPU time at which the armed operation is out of budget (0: disarmed)
+}
+
+func processCPU() time.Duration {
+	var ru syscall.Rusage
+	syscall.Getrusage(syscall.RUSAGE_SELF, &ru)
+	return time.Duration(ru.Utime.Nano() + ru.Stime.Nano())
+}
+
+func newWatchdog() *watchdog {
+	w := &watchdog{}
+	go func() {
+		for {
+			time.Sleep(50 * time.Millisecond)
+			w.mu.Lock()
+			dl := w.deadline
+			w.mu.Unlock()
+			if dl != 0 && processCPU() > dl {
+				buf := make([]byte, 1<<20)
+				n := runtime.Stack(buf, true)
+				os.Stderr.WriteString("VERIF-CPU-BUDGET-EXCEEDED\n")
+				os.Stderr.Write(buf[:n])
+				os.Exit(3)
+			}
+		}
+	}()
+	return w
+}
+
+func (w *watchdog) arm(budget time.Duration) {
+	w.mu.Lock()
+	w.deadline = processCPU() + budget
+	w.mu.Unlock()
+}
+
+func (w *watchdog) disarm() {
+	w.mu.Lock()
+	w.deadline = 0
+	w.mu.Unlock()
 }
